@@ -235,20 +235,8 @@ func checkC09(c *Check) {
 	}
 	c.Floor("emitting paths that can contain the end of a session", 2, need)
 
-	// 2. release only on end (deliveries of logins and events; cleanup sweeps are C16)
-	for _, d := range dels {
-		if d.EP != "AuditdEvent" && d.EP != "RemoteLogin" {
-			continue
-		}
-		name := fmt.Sprintf("removal from %s in %s (%s)", d.Map, d.Fn.Name(), d.EP)
-		ok, why := t.endEvidence(d.Guards, nil, nil)
-		if ok {
-			c.OK("release-only-on-end", name, d.Pos(p), why)
-		} else {
-			o := Obl{Rule: "release-only-on-end", Construct: name, Pos: d.Pos(p), Verdict: Violated, Fact: "a session is removed while delivering a login or an event without evidence of its credential-disposal record (" + why + "): the remaining events of the session, up to and including the disposal record, are dropped", Entry: stackStr(d)}
-			c.Obls = append(c.Obls, o)
-		}
-	}
+	// 2. release only on end
+	releaseOnlyOnEnd(c, t)
 
 	// 3. only LOGIN opens
 	nst := 0
@@ -362,4 +350,31 @@ func singleOwner(c *Check, t *Tracker) {
 		})
 	}
 	c.Floor("containers examined for session objects", 5, n)
+}
+
+
+// releaseOnlyOnEnd: every removal from the sessions map made while
+// delivering a login or an event requires evidence of the session's
+// credential-disposal record (cleanup sweeps are C16).
+func releaseOnlyOnEnd(c *Check, t *Tracker) {
+	p := c.P
+	n := 0
+	for _, d := range t.Of("mapop") {
+		if d.Map != t.SessMap || (d.Method != "DeleteUnsafe" && d.Method != "Delete") {
+			continue
+		}
+		if d.EP != "AuditdEvent" && d.EP != "RemoteLogin" {
+			continue
+		}
+		n++
+		name := fmt.Sprintf("removal from %s in %s (%s)", d.Map, d.Fn.Name(), d.EP)
+		ok, why := t.endEvidence(d.Guards, nil, nil)
+		if ok {
+			c.OK("release-only-on-end", name, d.Pos(p), why)
+		} else {
+			o := Obl{Rule: "release-only-on-end", Construct: name, Pos: d.Pos(p), Verdict: Violated, Fact: "a session is removed while delivering a login or an event without evidence of its credential-disposal record (" + why + "): the remaining events of the session, up to and including the disposal record, are dropped", Entry: stackStr(d)}
+			c.Obls = append(c.Obls, o)
+		}
+	}
+	c.Floor("session removals in deliveries", 2, n)
 }
